@@ -32,13 +32,20 @@ type TypeOps struct {
 	Idx   int
 	Name  string
 	RT    reflect.Type
-	Sub   func(w *World, fn int, opts []eventbus.SubscribeOption) error
+	Sub   func(w *World, fn, uid int, opts []eventbus.SubscribeOption) error
 	Unsub func(w *World, fn int) error
 	Pub   func(w *World, ctx context.Context, id int) // ctx == nil: Publish
+	// PubAny publishes the same event through an interface-typed value (T = any), which
+	// makes ebu dispatch through its reflection fallback instead of the typed fast path.
+	PubAny func(w *World, ctx context.Context, id int)
 	Clear func(w *World)
 	Has   func(w *World) bool
 	Count func(w *World) int
 	Filt  func(w *World, fn int, kind int) eventbus.SubscribeOption
+	// reflect types of the two handler forms, as the panic handler reports them
+	PlainHT, CtxHT reflect.Type
+	// IDOf extracts the id from an event value of this type passed as any
+	IDOf func(ev any) (int, bool)
 }
 
 // fn numbering: 0..numSites-1 are plain handlers, numSites..2*numSites-1 context-aware ones.
@@ -47,42 +54,61 @@ func isCtxFn(fn int) bool { return fn >= numSites }
 func mkOps[T evC](idx int) *TypeOps {
 	var zero T
 	o := &TypeOps{Idx: idx, RT: reflect.TypeOf(zero), Name: reflect.TypeOf(zero).String()}
+	o.PlainHT = reflect.TypeOf(eventbus.Handler[T](nil))
+	o.CtxHT = reflect.TypeOf(eventbus.ContextHandler[T](nil))
+	o.IDOf = func(ev any) (int, bool) {
+		e, ok := ev.(T)
+		if !ok {
+			return 0, false
+		}
+		return idOf(e), true
+	}
 	ps, cs := plainSites[T](), ctxSites[T]()
-	plain := func(w *World, fn int) func(T) {
-		k := [2]int{idx, fn}
+	// Closures made by one site share its code pointer (that is what ebu's Unsubscribe compares)
+	// but capture their own uid, like handlers built by a factory function in user code.
+	plain := func(w *World, fn, uid int) func(T) {
+		k := [3]int{idx, fn, uid}
 		if h, ok := w.handlers[k]; ok {
 			return h.(func(T))
 		}
-		h := ps[fn](func(e T) { w.invoke(idx, fn, nil, idOf(e)) })
+		h := ps[fn](func(e T) { w.invoke(idx, fn, uid, nil, idOf(e)) })
 		w.handlers[k] = h
 		return h
 	}
-	ctxh := func(w *World, fn int) func(context.Context, T) {
-		k := [2]int{idx, fn}
+	ctxh := func(w *World, fn, uid int) func(context.Context, T) {
+		k := [3]int{idx, fn, uid}
 		if h, ok := w.handlers[k]; ok {
 			return h.(func(context.Context, T))
 		}
-		h := cs[fn-numSites](func(c context.Context, e T) { w.invoke(idx, fn, c, idOf(e)) })
+		h := cs[fn-numSites](func(c context.Context, e T) { w.invoke(idx, fn, uid, c, idOf(e)) })
 		w.handlers[k] = h
 		return h
 	}
-	o.Sub = func(w *World, fn int, opts []eventbus.SubscribeOption) error {
+	o.Sub = func(w *World, fn, uid int, opts []eventbus.SubscribeOption) error {
 		if isCtxFn(fn) {
-			return eventbus.SubscribeContext[T](w.Bus, ctxh(w, fn), opts...)
+			return eventbus.SubscribeContext[T](w.Bus, ctxh(w, fn, uid), opts...)
 		}
-		return eventbus.Subscribe[T](w.Bus, plain(w, fn), opts...)
+		return eventbus.Subscribe[T](w.Bus, plain(w, fn, uid), opts...)
 	}
 	o.Unsub = func(w *World, fn int) error {
 		if isCtxFn(fn) {
-			return eventbus.Unsubscribe[T](w.Bus, ctxh(w, fn))
+			return eventbus.Unsubscribe[T](w.Bus, ctxh(w, fn, -1))
 		}
-		return eventbus.Unsubscribe[T](w.Bus, plain(w, fn))
+		return eventbus.Unsubscribe[T](w.Bus, plain(w, fn, -1))
 	}
 	o.Pub = func(w *World, ctx context.Context, id int) {
 		if ctx == nil {
 			eventbus.Publish(w.Bus, T{ID: id})
 		} else {
 			eventbus.PublishContext(w.Bus, ctx, T{ID: id})
+		}
+	}
+	o.PubAny = func(w *World, ctx context.Context, id int) {
+		var ev any = T{ID: id}
+		if ctx == nil {
+			eventbus.Publish(w.Bus, ev)
+		} else {
+			eventbus.PublishContext(w.Bus, ctx, ev)
 		}
 	}
 	o.Clear = func(w *World) { eventbus.Clear[T](w.Bus) }
@@ -120,24 +146,24 @@ func filterAccepts(kind, id int) bool {
 type World struct {
 	Bus      *eventbus.EventBus
 	Rec      core.Recorder
-	handlers map[[2]int]any
+	handlers map[[3]int]any
 	// OnInvoke is the body of every harness handler.
-	OnInvoke func(ti, fn int, ctx context.Context, id int)
+	OnInvoke func(ti, fn, uid int, ctx context.Context, id int)
 	OnFilter func(ti, fn, id int, accepted bool)
 }
 
 func NewWorld(opts ...eventbus.Option) *World {
-	w := &World{handlers: map[[2]int]any{}}
+	w := &World{handlers: map[[3]int]any{}}
 	w.Bus = eventbus.New(opts...)
 	return w
 }
 
-func (w *World) invoke(ti, fn int, ctx context.Context, id int) {
+func (w *World) invoke(ti, fn, uid int, ctx context.Context, id int) {
 	if simrt.Dying() {
 		return
 	}
 	if w.OnInvoke != nil {
-		w.OnInvoke(ti, fn, ctx, id)
+		w.OnInvoke(ti, fn, uid, ctx, id)
 	}
 }
 
@@ -149,7 +175,10 @@ type SubOpts struct {
 	Filter int  `json:"filter,omitempty"`
 }
 
-func (w *World) Subscribe(ti, fn int, o SubOpts) error {
+func (w *World) Subscribe(ti, fn int, o SubOpts) error { return w.SubscribeUID(ti, fn, 0, o) }
+
+// SubscribeUID subscribes a closure of site fn that reports uid on every invocation.
+func (w *World) SubscribeUID(ti, fn, uid int, o SubOpts) error {
 	var opts []eventbus.SubscribeOption
 	if o.Once {
 		opts = append(opts, eventbus.Once())
@@ -163,7 +192,7 @@ func (w *World) Subscribe(ti, fn int, o SubOpts) error {
 	if o.Filter != 0 {
 		opts = append(opts, allTypes[ti].Filt(w, fn, o.Filter))
 	}
-	return allTypes[ti].Sub(w, fn, opts)
+	return allTypes[ti].Sub(w, fn, uid, opts)
 }
 
 func regKey(ti, fn int) int { return ti*100 + fn }
